@@ -1,7 +1,11 @@
 package coroutines
 
 import (
+	"github.com/prometheus/client_golang/prometheus"
 	"github.com/resonatehq/gocoro"
+	i_api "github.com/resonatehq/resonate/internal/api"
+	"github.com/resonatehq/resonate/internal/kernel/bus"
+	"github.com/resonatehq/resonate/internal/metrics"
 	"github.com/resonatehq/resonate/internal/kernel/t_aio"
 	"github.com/resonatehq/resonate/internal/kernel/t_api"
 	"github.com/resonatehq/resonate/internal/util"
@@ -44,4 +48,47 @@ func VXDispatch(c gocoro.Coroutine[*t_aio.Submission, *t_aio.Completion, any], r
 		return Echo(c, r) // only registered by the DST command
 	}
 	panic("no registered coroutine for request kind")
+}
+
+// ---- the real kernel path for one request: real api queue -> real System.Tick -> real AddOnRequest
+// wrapper -> the coroutine cmd/serve registers -> real api.EnqueueCQE -> callback.
+
+type vxAIO struct{}
+
+func (a *vxAIO) String() string                                                        { return "vx" }
+func (a *vxAIO) Start() error                                                          { return nil }
+func (a *vxAIO) Stop() error                                                           { return nil }
+func (a *vxAIO) Shutdown()                                                             {}
+func (a *vxAIO) Errors() <-chan error                                                  { return nil }
+func (a *vxAIO) Signal(<-chan interface{}) <-chan interface{}                          { return nil }
+func (a *vxAIO) Flush(int64)                                                           {}
+func (a *vxAIO) Dispatch(*t_aio.Submission, func(*t_aio.Completion, error))            {}
+func (a *vxAIO) EnqueueSQE(*bus.SQE[t_aio.Submission, t_aio.Completion])               {}
+func (a *vxAIO) EnqueueCQE(*bus.CQE[t_aio.Submission, t_aio.Completion])               {}
+func (a *vxAIO) DequeueCQE(int) []*bus.CQE[t_aio.Submission, t_aio.Completion]         { return nil }
+
+// VXProcess submits sqe to a real kernel (api + System) and runs one tick. It returns what the
+// submission's callback received and how often it was called.
+func VXProcess(c vx.Coro, sqe *bus.SQE[t_api.Request, t_api.Response]) (res *t_api.Response, err error, answers int) {
+	vx.IgnoreGo() // coroutineMetrics' goroutine only awaits the promise and decrements a gauge
+	m := metrics.New(prometheus.NewRegistry())
+	a := i_api.New(1, m)
+	cfg := &system.Config{Url: vx.String("config.url"), CoroutineMaxSize: 1, SubmissionBatchSize: 1, CompletionBatchSize: 1,
+		PromiseBatchSize: vx.Opt("batch", 2), ScheduleBatchSize: vx.Opt("batch", 2), TaskBatchSize: vx.Opt("batch", 2), TaskEnqueueDelay: 10000000000, SignalTimeout: 1000000000}
+	s := system.New(a, &vxAIO{}, cfg, m)
+	kind := sqe.Submission.Kind
+	if f, ok := vx.ServeRegistered(int(kind)).(func(gocoro.Coroutine[*t_aio.Submission, *t_aio.Completion, any], *t_api.Request) (*t_api.Response, error)); ok {
+		s.AddOnRequest(kind, f)
+	} else if kind == t_api.Echo {
+		s.AddOnRequest(kind, Echo) // only registered by the DST command
+	}
+	cb := sqe.Callback
+	sqe.Callback = func(r *t_api.Response, e error) {
+		answers++
+		res, err = r, e
+		cb(r, e)
+	}
+	a.EnqueueSQE(sqe)
+	s.Tick(vx.Tick())
+	return
 }
